@@ -46,7 +46,7 @@ def classify(mod, known, case, faults, msgs):
 
 
 def _worker(span):
-    lo, hi, selfcheck = span
+    lo, hi, selfcheck, stride = span
     mod, tier, cases, known = _STATE['mod'], _STATE['tier'], _STATE['cases'], _STATE['known']
     from . import run as vrun
     rep = {'execs': 0, 'nontrivial': 0, 'outcomes': collections.Counter(), 'viol': [],
@@ -58,7 +58,7 @@ def _worker(span):
     def on_alarm(signum, frame):
         raise Runaway('watchdog', 'one case took more than %d s of wall time' % CASE_TIMEOUT)
     signal.signal(signal.SIGALRM, on_alarm)
-    for i in range(lo, hi):
+    for i in range(lo, hi, stride):
         case = cases[i]
         signal.alarm(CASE_TIMEOUT)
         try:
@@ -83,12 +83,12 @@ def _worker(span):
                 rep['known'][fid] += 1
             elif len(rep['viol']) < MAX_VIOLATIONS:
                 rep['viol'].append({'index': i, 'case': case, 'faults': v['faults'], 'msgs': v['msgs']})
-        if (i - lo) % 64 == 0:
+        if ((i - lo) // stride) % 64 == 0:
             vrun.collect_garbage()
     if selfcheck:
         # proof of owned nondeterminism: re-run the first cases, demand identical reports
         bad = 0
-        for i in range(lo, min(hi, lo + selfcheck)):
+        for i in range(lo, min(hi, lo + selfcheck * stride), stride):
             a = ADDR.sub('#', json.dumps(mod.explore_case(cases[i], tier), sort_keys=True, default=repr))
             b = ADDR.sub('#', json.dumps(mod.explore_case(cases[i], tier), sort_keys=True, default=repr))
             if a != b:
@@ -132,8 +132,10 @@ def run_check(modname, tier, seed):
     known = load_known(prop)
     _STATE.update(mod=mod, tier=tier, cases=cases, known=known)
     workers = int(os.environ.get('VERIF_WORKERS', '16'))
-    size = max(1, min(200, -(-n // (workers * 6))))
-    spans = [[lo, min(n, lo + size), 0] for lo in range(0, n, size)]
+    # strided shards: shard k explores cases k, k+S, k+2S, ... so that cheap and expensive programs mix evenly
+    nshards = max(1, min(n, workers * 6))
+    spans = [[k, n, 0, nshards] for k in range(nshards)]
+    size = -(-n // nshards) if n else 0
     if spans:
         spans[0][2] = min(20, size)
     # the seed only rotates the order in which shards are handed out and which samples are kept
